@@ -7,8 +7,9 @@ TV  : Trace_Plots - plot_cyclepoints_df / _array, plot_burst_detect_param, plot_
       drawn markers are genuine cyclepoints of their kind, at the plotted signal's value, every cyclepoint strictly inside the view is drawn;
       the highlighted samples lie in burst cycles and cover every completely displayed burst cycle; panel vertices are genuine (centre | side,
       value) pairs, every cycle completely in view is shown, and the threshold line is at the threshold.
-MC  : the same bounds on EVERY small table x window (exhaustive small scope): the harness enumerates all side-extremum sets on N samples and
-      all windows on the sample grid; TLC validates each recorded drawing (exhaustive: true for that bounded space).
+MC/IX: MC_Plots - TLC enumerates every side-extremum set on N samples x centring x every window on the sample grid (and none) x five plot
+      modes (summary interp/step, cyclepoints_df, param interp/step) and judges, for each point, the drawing recorded from the real function
+      (looked up by a key built from the point; the recorded table must be the one TLC builds).
 """
 import itertools
 
@@ -100,28 +101,60 @@ def judge(ctx, recs, metas, label):
 
 
 def run_small(ctx, ns):
-    """Every side-extremum set on ns samples x every window on the sample grid (and none): exhaustive small scope."""
-    recs, metas = [], []
+    """MC_Plots: TLC enumerates every side-extremum set on ns samples x centring x window on the sample grid (and none) x plotting function /
+    mode, and judges the drawing recorded from the real function for each point (looked up by key)."""
+    import os
+    import re
+    import tlc
     sig = np.round(np.sin(np.arange(ns) * 1.3) * 8) / 8 + np.arange(ns) * 0.125
     thr = dict(CYC_THR, min_n_cycles=1)
-    k = 0
+    jobs, keys = [], []
+    wins = [(None, None)] + [(a, b) for a in range(0, ns + 1) for b in range(0, ns + 1) if b >= a + 2]
     for sides in ix_tables.side_sets(ns):
         if len(sides) < 3:
             continue
+        mask = sum(1 << i for i in sides)
         for peak in (True, False):
             df = ix_tables.table_of(sides, peak).drop(columns=['rowid', 'feat'])
             m = len(df)
             for j, col in enumerate(['amp_fraction', 'amp_consistency', 'period_consistency', 'monotonicity']):
                 df[col] = [((i * 7 + j * 3) % 10) / 10.0 for i in range(m)]
             df['is_burst'] = [(i + len(sides)) % 3 != 0 for i in range(m)]
-            wins = [(None, None)] + [(a, b) for a in range(0, ns) for b in range(a + 2, ns + 1)]
             for (a, b) in wins:
-                op, flags = [('summary', {'interp': bool(k % 2)}), ('cyclepoints_df', {}), ('param', {'interp': bool(k % 2), 'param_index': k})][k % 3]
-                recs.append((op, df, sig, 64, thr, a, b, flags))
-                metas.append({'op': op, 'sides': list(sides), 'n': ns, 'fs': 64, 'centre': 'peak' if peak else 'trough', 'window_samples': [a, b], 'flags': flags, 'cycles': m})
-                k += 1
-    judge(ctx, recs, metas, 'small_scope(N=%d)' % ns)
-    ctx.parts[-1]['exhaustive_within_bound'] = True        # the bounded part is complete; the run as a whole also samples beyond it
+                for opname, op, flags in (('summary_interp', 'summary', {'interp': True}), ('summary_step', 'summary', {'interp': False}), ('cyclepoints_df', 'cyclepoints_df', {}),
+                                          ('param_interp', 'param', {'interp': True, 'param_index': len(sides) + (a or 0)}),
+                                          ('param_step', 'param', {'interp': False, 'param_index': len(sides) + (b or 0)})):
+                    jobs.append((op, df, sig, 64, thr, a, b, flags))
+                    keys.append('%d%s/%s/%s' % (mask, 'p' if peak else 't', 'N' if a is None else '%d-%d' % (a, b), opname))
+    recs = record_all(jobs)
+    path = os.path.join(ctx.scratch.path, 'impl_plots.json')
+    tlc.dump_json(path, dict(zip(keys, recs)))
+    cfg = tlc.cfg(constants={'NS': ns, 'UseImpl': True}, invariants=['InvBoundsConsistent'])
+    res = tlc.must(tlc.run('MC_Plots', cfg, ctx.scratch, env={'IMPL_FILE': path}, coverage=True, timeout=3000, workers=8), 'MC_Plots')
+    os.remove(path)
+    ctx.add_tlc(res, 'MC_Plots(N=%d)' % ns)
+    mm = re.search(r'Finished computing initial states: (\d+) distinct state', res['text'])
+    if not mm or int(mm.group(1)) != len(keys):
+        raise tlc.TLCError('MC_Plots: initial states %s != %d recorded drawings' % (mm and mm.group(1), len(keys)))
+    if res['violated']:
+        ctx.violation('C20.spec.' + res['violated'], res['error_trace'][:1200])
+    nd = 0
+    for d in res['prints']:
+        if d[0] != 'DISAGREE':
+            continue
+        nd += 1
+        if nd <= 10:
+            _, _, opname, sides_, peak_, win_, clauses = d
+            a_, b_ = (None, None) if win_[0] == -1 else (win_[0], win_[1])
+            mmeta = {'op': opname, 'sides': sides_, 'n': ns, 'fs': 64, 'centre': 'peak' if peak_ else 'trough', 'window_samples': [a_, b_]}
+            for f in clauses[:3]:
+                ctx.violation(classify(mmeta, f, ''), 'small-scope table %s' % mmeta, {'kind': 'mc_plots', 'meta': mmeta})
+    ctx.traces += len(keys)
+    ctx.evaluations += len(keys)
+    ctx.nontrivial += sum(1 for k in keys if '/N/' not in k)
+    ctx.parts[-1].update({'drawings': len(keys), 'violating': nd, 'exhaustive_within_bound': True})
+    ctx.sample({'mc_plots_point': {'sides': [0, 2, 5], 'centre': 'trough', 'window': [1, 6], 'op': 'summary_step'},
+                'space': 'every side-extremum set (>= 2 cycles) on %d samples x centring x every window on the sample grid (and none) x 5 plot modes' % ns})
 
 
 def run(ctx):
